@@ -123,7 +123,7 @@ class C20(Prop):
 
     def budget(self, tier):
         if tier == 'quick':
-            return {'runs': 220, 'wall_s': 75, 'per_run_timeout': 400,
+            return {'runs': 700, 'wall_s': 75, 'per_run_timeout': 400,
                     'shrink_s': 90, 'min_evaluated': 40,
                     'require_probes': ['c20.group_checked',
                                        'c20.distribute_checked',
